@@ -486,7 +486,7 @@ def pool_directed(_args) -> Acc:
     """A few long histories beyond the exhaustive depth: the back-off sequence up to its cap, through the pool."""
     acc = Acc()
     for bat, inv in ((9, 8), (19, 18)):
-        for n in (3, 4, 5):
+        for n in (3, 4, 5) + ((50,) if bat == 9 else ()):  # 50 failures in a row: far beyond the point where the cap is reached
             hist = _backoff_history(bat, inv, n)
             viol = run_pool_history(hist)
             acc.evaluations += 1
@@ -571,7 +571,7 @@ def run(tier: str, seed: int, workers: int):
         "from a cold start and after a failure; each history is one execution of the real tracker, compared step by step with "
         "the reference; non-trivial = the notification sequence contains UNCERTAIN or both WORKING and NOT_WORKING; plus the "
         "real ComponentPoolStatusTracker over two batteries (13 events incl. two results reported back to back, from a cold start and from both batteries healthy) and all "
-        "3-element ComponentPoolStatus queries; plus six long directed pool histories (3-5 failed commands in a row, each after the previous "
+        "3-element ComponentPoolStatus queries; plus seven long directed pool histories (3-5 and once 50 failed commands in a row, each after the previous "
         "block expired, with fresh data throughout: the back-off sequence up to its cap as seen through the pool); plus a BFS "
         "from the cold start to depth 10 (quick) / 13 (thorough) with states merged on (validity flags, reception and message ages, "
         "blocking deadline relative to now, last blocking duration, last status) read from the reference AND the real tracker",
